@@ -125,6 +125,8 @@ type Chain struct {
 	last    Dump
 	GovAddr string
 	Logger  *ChainLogger
+	// OnBlock, if set, sees every committed block (inputs and results).
+	OnBlock func(txs [][]byte, res *abci.ResponseFinalizeBlock, r *Result)
 }
 
 func detSecp(seed int64, tag string) cryptotypes.PrivKey {
@@ -321,6 +323,9 @@ func (c *Chain) Commit(txs [][]byte) *Result {
 		x := res.TxResults[len(res.TxResults)-1]
 		r.Code, r.Space, r.Log, r.GasUsed, r.Events = x.Code, x.Codespace, x.Log, x.GasUsed, x.Events
 		r.TxBytes = txs[len(txs)-1]
+	}
+	if c.OnBlock != nil {
+		c.OnBlock(txs, res, r)
 	}
 	c.Net.tick()
 	c.Net.Steps++
